@@ -101,8 +101,33 @@ def modified_paths(engine, body):
         elif isinstance(t, ast.Starred):
             targets(t.value)
 
+    def declared(lst):
+        for nm in lst:
+            parts = tuple(nm.split("."))
+            if len(parts) == 1:
+                names.add(parts[0])
+            else:
+                paths.add(parts)
+                through_alias(parts)
+
     for stmt in body:
         for node in ast.walk(stmt):
+            if isinstance(node, ast.stmt):
+                # a statement abstracted by the contract writes what the contract says it writes
+                ab = engine.abstracted(node)
+                if ab:
+                    declared(ab)
+            if isinstance(node, ast.Call):
+                # an external (assumed contract) that declares effects: ext.modifies = ["<receiver>.<field>", ...] relative to its receiver
+                fname = node.func.attr if isinstance(node.func, ast.Attribute) else (node.func.id if isinstance(node.func, ast.Name) else None)
+                for ename, efn in engine.contract.externals.items():
+                    if fname and (ename == fname or ename.endswith("." + fname)) and getattr(efn, "modifies", None):
+                        recv = _root_path(node.func.value) if isinstance(node.func, ast.Attribute) else None
+                        for m in efn.modifies:
+                            if m.startswith("self.") and recv:
+                                declared([".".join(recv + tuple(m.split(".")[1:]))])
+                            else:
+                                declared([m])
             if isinstance(node, ast.Assign):
                 for t in node.targets:
                     targets(t)
@@ -152,6 +177,32 @@ def modified_paths(engine, body):
 
 
 def havoc_modified(engine, st, stmt, names, paths):
+    # dict-entry views that are alive when the loop starts: after the havoc they are re-attached to the
+    # (havoc'd) container at the same key, so that the name still IS the entry in an arbitrary iteration
+    live_views = [(v[0], v[1], v[2]) for v in getattr(st.heap, "views", []) if not v[3]]
+    view_vars = {}
+    for vid, cid, key in live_views:
+        for n, val in st.vars.items():
+            if isinstance(val, Ref) and val.id == vid:
+                view_vars.setdefault((vid, cid, key), []).append(n)
+    _havoc_modified(engine, st, stmt, names, paths)
+    for (vid, cid, key), vnames in view_vars.items():
+        touched = any(n in names for n in vnames) or any(v[0] == vid and v[3] for v in st.heap.views)
+        if not touched:
+            continue
+        cont = dict.__getitem__(st.heap, cid)
+        if not (isinstance(cont, V) and isinstance(cont.t, (Ty.Map, Ty.ODict))):
+            continue
+        mp = cont if isinstance(cont.t, Ty.Map) else V(cont.t.map_t, cont.c[len(cont.t.keys_t.sorts()):])
+        st.assume(mp.c[0][key])  # the entry exists (the view was taken from it; loops deleting it are outside this model)
+        val = engine.mapval(mp, key)
+        ref = engine.alloc(st, val)
+        st.heap.add_view(ref.id, cid, key)
+        for n in vnames:
+            st.vars[n] = ref
+
+
+def _havoc_modified(engine, st, stmt, names, paths):
     for n in sorted(names):
         if n not in st.vars:
             continue
